@@ -166,6 +166,9 @@ def check_side(tree, text: str, table: pp.NameTable, tree_ast=None):
     except pp.Outside as ex:
         return dict(status="outside", why=f"tree: {ex}")
     table.finish()
+    clash = pp.constant_name_clash(a, table)
+    if clash:
+        return dict(status="outside", why=f"ambiguous names: the constant {clash} and a display name are written alike")
     try:
         b = _ENV["parse"](text, table)
     except pp.Outside as ex:
